@@ -88,6 +88,31 @@ func c12PlmnExec(c *core.Ctx, in c12Plmn) {
 	}
 }
 
+// c12PlmnSeq: several PLMN conversions in one process, in order (a conversion must not depend on the previous one).
+type c12PlmnSeq struct {
+	Plmns []c12Plmn `json:"plmns"`
+}
+
+func c12PlmnSeqExec(c *core.Ctx, in c12PlmnSeq) {
+	for i, p := range in.Plmns {
+		want := refconv.PlmnOctets(p.Mcc, p.Mnc)
+		var got []byte
+		var txt string
+		pi := core.Try(func() {
+			got = nasConvert.PlmnIDToNas(models.PlmnId{Mcc: p.Mcc, Mnc: p.Mnc})
+			txt = nasConvert.PlmnIDToString(append([]byte{}, want[:]...))
+		})
+		if pi != nil {
+			c.FailCase("plmn-sequence|"+pi.Key(), "panics: "+pi.Msg, "plmn-seq", in)
+			return
+		}
+		if !bytes.Equal(got, want[:]) || txt != p.Mcc+p.Mnc {
+			c.FailCase("plmn-sequence|depends-on-earlier-call", fmt.Sprintf("conversion %d of the sequence %v: PlmnIDToNas(%s,%s) = %x (TS 24.008: %x), PlmnIDToString = %q", i+1, in.Plmns, p.Mcc, p.Mnc, got, want, txt), "plmn-seq", in)
+			return
+		}
+	}
+}
+
 func c12AmfExec(c *core.Ctx, in c12Amf) {
 	txt := refconv.AmfIDText(in.ID)
 	r, s, p := refconv.AmfIDSplit(in.ID)
@@ -293,6 +318,25 @@ func c12Run(c *core.Ctx) {
 			n++
 		}
 	}
+	// PLMN histories: the same digit string split as abc/de and as 0ab/cde, abc/de and abc/0de …, converted back to back
+	// in both orders (a conversion must not remember the previous one)
+	for hi := 0; hi < 1000; hi++ {
+		if !c.Mine(hi) {
+			continue
+		}
+		if !c.Begin("plmn-seq-block", "PlmnIDToNas", map[string]int{"first_three_digits": hi}) {
+			continue
+		}
+		for lo := 0; lo < 100; lo++ {
+			x := fmt.Sprintf("%03d%02d", hi, lo) // five digits abcde
+			a := c12Plmn{x[:3], x[3:]}
+			for _, b := range []c12Plmn{{"0" + x[:2], x[2:]}, {x[:3], "0" + x[3:]}, {x[:3], x[3:] + "0"}, {x[1:4], x[4:] + x[:1]}} {
+				c12PlmnSeqExec(c, c12PlmnSeq{[]c12Plmn{a, b}})
+				c12PlmnSeqExec(c, c12PlmnSeq{[]c12Plmn{b, a, b}})
+				n += 2
+			}
+		}
+	}
 	// AMF ids: all 2^24, sharded by region
 	for r := 0; r < 256; r++ {
 		if !c.Mine(r) {
@@ -486,6 +530,7 @@ func c12Run(c *core.Ctx) {
 
 func init() {
 	core.RegisterKind("C12", "plmn", c12PlmnExec)
+	core.RegisterKind("C12", "plmn-seq", c12PlmnSeqExec)
 	core.RegisterKind("C12", "amfid", c12AmfExec)
 	core.RegisterKind("C12", "guti", c12GutiExec)
 	core.RegisterKind("C12", "suci", c12SuciExec)
